@@ -841,6 +841,121 @@ func initialThenEvents(c *Check) {
 					pathEq = true
 				}
 			}
+			// between the event loop and the tail reader (the method that
+			// seeks) no function drops the event: every path hands the
+			// operation on, unless a test of the operation alone decides
+			// otherwise. A rate limit, a memo or a size shortcut in front of
+			// the read swallows the event of a complete line.
+			{
+				var seekFn *ssa.Function
+				for _, f := range p.AllRepoFuncs() {
+					if FuncPkgPath(f) != ModPath+"/"+pkgDir {
+						continue
+					}
+					allInstrs(f, func(in ssa.Instruction) {
+						if cl, ok := in.(*ssa.Call); ok && cl.Common().IsInvoke() && cl.Common().Method.Name() == "Seek" {
+							seekFn = f
+						}
+					})
+				}
+				cur := staticCallee(tail.Common())
+				nchain := 0
+				seenF := map[*ssa.Function]bool{}
+				for cur != nil && cur != seekFn && !seenF[cur] && nchain < 6 {
+					seenF[cur] = true
+					nchain++
+					c.Fn(funcDisplayName(cur))
+					var opP *ssa.Parameter
+					for _, prm := range cur.Params {
+						if typeName(prm.Type()) == "fsnotify.Op" {
+							opP = prm
+						}
+					}
+					var fv *ssa.FreeVar
+					for _, v := range cur.FreeVars {
+						if typeName(v.Type()) == "fsnotify.Op" {
+							fv = v
+						}
+					}
+					if opP == nil && fv == nil {
+						break
+					}
+					cr := NewResolver(p)
+					var item *Org
+					if opP != nil {
+						item = cr.Of(opP)
+					} else {
+						item = cr.Of(fv)
+					}
+					var next *ssa.Function
+					nhandled := 0
+					sameItem := func(v ssa.Value) bool {
+						if sameOrg(cr.Of(v), item) {
+							return true
+						}
+						// a captured parameter lives in a cell written once, with the parameter
+						if al, ok := v.(*ssa.Alloc); ok {
+							if sts := cr.cellStores(al); len(sts) == 1 && sameOrg(cr.Of(sts[0].Val), item) {
+								return true
+							}
+						}
+						return false
+					}
+					handled := func(in ssa.Instruction) bool {
+						ci, ok := in.(ssa.CallInstruction)
+						if !ok {
+							return false
+						}
+						hit := false
+						defer func() {
+							if hit {
+								nhandled++
+							}
+						}()
+						for _, a := range ci.Common().Args {
+							if sameItem(a) {
+								hit = true
+								if sc := staticCallee(ci.Common()); sc != nil && InRepo(sc) {
+									next = sc
+								}
+							}
+							if mc, ok := strip(a).(*ssa.MakeClosure); ok {
+								for _, b := range mc.Bindings {
+									if sameItem(b) {
+										hit = true
+										next = mc.Fn.(*ssa.Function)
+									}
+								}
+							}
+						}
+						return hit
+					}
+					ds, _ := dropDeciders(cur, handled, func(ret *ssa.Return) bool {
+						for _, res := range ret.Results {
+							if isErrorType(res.Type()) && nilKind(cr, res, ret) == NonNil {
+								return false
+							}
+						}
+						return true
+					})
+					leafOK := func(o *Org) bool { return sameOrg(o, item) }
+					okF := true
+					for _, d := range ds {
+						if ok, w := condOnly(cr, d.If.Cond, leafOK, 0); !ok {
+							okF = false
+							c.Bad("initial-files-then-events", name+": watcher event reaches the tail reader through "+cur.Name(), p.InstrPos(d.If), "the function can return without handing the event on, depending on "+w+" (not on the kind of event alone): the event of a complete appended line is swallowed and the line is delivered late or never")
+						}
+					}
+					if nhandled == 0 {
+						okF = false
+						c.Unk("initial-files-then-events", name+": watcher event reaches the tail reader through "+cur.Name(), p.Pos(cur.Pos()), "no call that hands the event's operation on was recognised")
+					}
+					if okF {
+						c.OK("initial-files-then-events", name+": watcher event reaches the tail reader through "+cur.Name(), p.Pos(cur.Pos()), "no path drops the event")
+					}
+					cur = next
+				}
+			}
 			c.Cond(exhausted && pathEq, "initial-files-then-events", name+": watcher events", p.InstrPos(tail), "handled only when no initial file remains and only for the live log's path", fmt.Sprintf("watcher events are handled while initial files are still being read, or for other files (initial list exhausted: %v, path compared: %v): lines are delivered out of order or from rotated files", exhausted, pathEq))
 		}
 	}
